@@ -772,7 +772,7 @@ def run(rep, tier):
                             continue
                         calls.append(("c16_step", [1 if mode == "on" else 0, 1 if q["refine"] else 0] + enc_cores(obs[qi]["before"]) + enc_strlist(q["ids"]) + enc_reply(q["mabs"]) + enc_reply(q["mref"])))
                         index.append((hi, mode, qi))
-            mres = dict(zip(index, m.parallel_batch(calls)))
+            mres = dict(zip(index, m.parallel_batch(calls))) if calls else {}   # no call: every history raised (reported below)
         refuted_replayed = False
         for hi, h in enumerate(hs):
             fam = h["family"]
